@@ -191,13 +191,13 @@ Section Inv.
     safe t (bucket b) l Q.
   Proof.
     intros HQ. unfold bucket. cbn [Conc.safe]. intros g A tr HI Hv.
-    exists A. split; [eapply Inv_keeps; [apply keeps_nop|exact HI]|]. split; [apply frame_refl|]. rewrite Hv. cbn [a_ld_seg a_nop fst snd].
+    exists A. split; [eapply Inv_keeps with (f := a_ld_seg); [apply keeps_nop|exact HI]|]. split; [apply frame_refl|]. rewrite Hv. cbn [a_ld_seg a_nop fst snd].
     clear g A tr HI Hv. intros g A tr HI Hv. cbn [a_ld_tab fst snd vptr].
     destruct (Nat.eqb_spec (table g b) 0) as [Hz|Hnz].
     - exists A. split; [eapply Inv_trace; exact HI|]. split; [apply frame_refl|]. rewrite Hv. cbn.
       specialize (HQ (table g b)). rewrite Hz in *. cbn in HQ. apply HQ. intros _ ->. apply (i_zero HI). exact Hz.
     - exists (upd A t (add_pub l b)). split.
-      + eapply Inv_trace. destruct HI. constructor; auto.
+      + apply Inv_trace with (tr := tr). destruct HI. constructor; auto.
         * intros u n b' H. unfold upd in H. destruct (Nat.eqb_spec u t) as [->|]; [cbn in H; unfold view in Hv; rewrite <- Hv in H|]; eauto.
         * intros u b' H. unfold upd in H. destruct (Nat.eqb_spec u t) as [->|]; [|eauto]. cbn in H. destruct H as [<-|H]; [exact Hnz|].
           unfold view in Hv. rewrite <- Hv in H. eauto.
@@ -211,24 +211,29 @@ Section Inv.
     Q tt (add_pub l b) -> safe t (set_bucket b n) l Q.
   Proof.
     intros Hown Hpar HQ. unfold set_bucket. cbn [Conc.safe]. intros g A tr HI Hv.
-    exists A. split; [eapply Inv_keeps; [apply keeps_nop|exact HI]|]. split; [apply frame_refl|]. rewrite Hv. cbn [a_ld_seg a_nop fst snd].
+    exists A. split; [eapply Inv_keeps with (f := a_ld_seg); [apply keeps_nop|exact HI]|]. split; [apply frame_refl|]. rewrite Hv. cbn [a_ld_seg a_nop fst snd].
     clear g A tr HI Hv. intros g A tr HI Hv.
-    exists A. split; [eapply Inv_keeps; [apply keeps_nop|exact HI]|]. split; [apply frame_refl|]. rewrite Hv. cbn [a_nop fst snd].
+    exists A. split; [eapply Inv_keeps with (f := a_ld_seg); [apply keeps_nop|exact HI]|]. split; [apply frame_refl|]. rewrite Hv. cbn [a_ld_seg a_nop fst snd].
     clear g A tr HI Hv. intros g A tr HI Hv. cbn [a_st_tab fst snd].
     unfold view in Hv.
     destruct (i_own HI t) with (n := n) (b := b) as (Hn0 & Hnle & Hkey); [rewrite Hv; exact Hown|].
     exists (upd A t (add_pub l b)). split; [|split; [apply frame_upd|rewrite view_upd_same; exact HQ]].
-    eapply Inv_trace. destruct HI. constructor; cbn [table heap nalloc].
-    - intros b' Hb'. destruct (Nat.eqb_spec b' b) as [->|Hne]; [split; assumption|]. apply i_tab0; exact Hb'.
-    - intros b' Hb' Hz. destruct (Nat.eqb_spec b' b) as [->|Hne].
-      + destruct (Nat.eqb_spec (parent_bucket b) b) as [E|E]; [exact Hn0|].
-        apply (i_pub0 t). rewrite Hv. apply Hpar. exact Hz.
-      + destruct (Nat.eqb_spec (parent_bucket b') b) as [E|E]; [exact Hn0|]. apply i_parent0; assumption.
-    - destruct (Nat.eqb_spec 0 b); [exact Hn0|exact i_zero0].
+    apply Inv_trace with (tr := tr).
+    set (tab' := fun x => if Nat.eqb x b then n else table g x).
+    assert (T1 : tab' b = n) by (unfold tab'; now rewrite Nat.eqb_refl).
+    assert (T2 : forall x, x <> b -> tab' x = table g x) by (intros x Hx; unfold tab'; destruct (Nat.eqb_spec x b); congruence).
+    assert (T3 : forall x, table g x <> 0 -> tab' x <> 0).
+    { intros x Hx. destruct (Nat.eq_dec x b) as [->|Hne]; [rewrite T1; exact Hn0|rewrite T2; assumption]. }
+    destruct HI. constructor; cbn [table heap nalloc]; fold tab'.
+    - intros b' Hb'. destruct (Nat.eq_dec b' b) as [->|Hne]; [rewrite T1; split; assumption|].
+      rewrite T2 in * by exact Hne. apply i_tab0; exact Hb'.
+    - intros b' Hb' Hz. destruct (Nat.eq_dec b' b) as [->|Hne].
+      + apply T3. apply (i_pub0 t). rewrite Hv. apply Hpar. exact Hz.
+      + rewrite T2 in Hb' by exact Hne. apply T3. apply i_parent0; assumption.
+    - apply T3. exact i_zero0.
     - intros u n' b' H. unfold upd in H. destruct (Nat.eqb_spec u t) as [->|]; [cbn in H; rewrite <- Hv in H|]; eauto.
-    - intros u b' H. destruct (Nat.eqb_spec b' b) as [->|Hne]; [exact Hn0|].
-      unfold upd in H. destruct (Nat.eqb_spec u t) as [->|]; [|eauto]. cbn in H. destruct H as [E|H]; [congruence|].
-      rewrite <- Hv in H. eauto.
+    - intros u b' H. unfold upd in H. destruct (Nat.eqb_spec u t) as [->|]; [|apply T3; eauto]. cbn in H. destruct H as [<-|H]; [rewrite T1; exact Hn0|].
+      rewrite <- Hv in H. apply T3. eauto.
   Qed.
 
   Lemma safe_wait_bucket t b : forall f l,
@@ -259,7 +264,7 @@ Section Inv.
     2:{ cbn. left; reflexivity. }
     (* allocate the aux node *)
     cbn [Conc.safe]. intros g A tr HI Hv.
-    exists A. split; [eapply Inv_keeps; [apply keeps_nop|exact HI]|]. split; [apply frame_refl|]. rewrite Hv. cbn [a_ld_auxlist a_nop fst snd].
+    exists A. split; [eapply Inv_keeps with (f := a_ld_auxlist); [apply keeps_nop|exact HI]|]. split; [apply frame_refl|]. rewrite Hv. cbn [a_ld_auxlist a_nop fst snd].
     clear g A tr HI Hv. intros g A tr HI Hv.
     exists A. split; [eapply Inv_keeps; [apply keeps_ld_auxcnt|exact HI]|]. split; [apply frame_refl|]. rewrite Hv. cbn [a_ld_auxcnt fst snd].
     destruct (Z.ltb _ _); [|exact I].
@@ -270,7 +275,7 @@ Section Inv.
     set (n := S (nalloc g)). set (l2 := mkL (Some (n, b)) (pub l1)).
     exists (upd A t l2). split.
     { assert (HI' : Inv (fst (fst (a_new_aux (dkey b) g))) A tr) by (eapply Inv_keeps; [apply keeps_new_aux|exact HI]).
-      cbn [a_new_aux fst] in HI'. eapply Inv_trace. destruct HI'. constructor; auto.
+      cbn [a_new_aux fst] in HI'. apply Inv_trace with (tr := tr). destruct HI'. constructor; auto.
       - intros u n' b' H. unfold upd in H. destruct (Nat.eqb_spec u t) as [->|]; [|eauto]. cbn in H. inversion H; subst n' b'.
         cbn [set_heap nalloc heap]. unfold n. repeat split; auto. unfold upd_heap. rewrite Nat.eqb_refl. reflexivity.
       - intros u b' H. unfold upd in H. destruct (Nat.eqb_spec u t) as [->|]; [|eauto]. cbn in H. unfold view in Hv. rewrite <- Hv in H. eauto. }
@@ -300,14 +305,13 @@ Section Inv.
     unfold run_op. destruct o as [|code [|k [|x r]]]; try exact I.
     cbn [Conc.safe]. intros g A tr HI Hv. exists A. split; [eapply Inv_trace; exact HI|]. split; [apply frame_refl|]. rewrite Hv.
     apply Conc.safe_bind. eapply Conc.safe_weaken; [|apply safe_get_bucket].
-    intros [[pHead fr1]|] l1 _; [|apply safe_any_benign; unfold give_up; repeat constructor].
+    intros [[pHead fr1]|] l1 _; [|apply safe_any_benign; unfold give_up; bn].
     destruct (Z.eqb code 1).
-    - apply safe_benign_bind; [apply bn_list_insert|]. intros [[[|] fr2]|]; try (apply safe_any_benign; unfold give_up; repeat constructor).
-      apply safe_any_benign. apply benign_bind; [apply bn_inc_item_count|]. intros _. repeat constructor.
+    - apply safe_benign_bind; [apply bn_list_insert|]. intros [[[|] fr2]|]; try (solve [apply safe_any_benign; unfold give_up; bn]).
+      apply safe_any_benign. apply benign_bind; [apply bn_inc_item_count|]. intros _. bn.
     - destruct (Z.eqb code 7).
-      + apply safe_benign_bind; [apply bn_list_erase|]. intros [[[|] fr2]|]; try (apply safe_any_benign; unfold give_up; repeat constructor).
-        apply safe_any_benign. constructor; [apply keeps_cnt|]. intros _. repeat constructor.
-      + apply safe_benign_bind; [apply bn_list_find|]. intros [[b fr2]|]; apply safe_any_benign; unfold give_up; repeat constructor.
+      + apply safe_benign_bind; [apply bn_list_erase|]. intros [[[|] fr2]|]; try (solve [apply safe_any_benign; unfold give_up; bn]).
+      + apply safe_benign_bind; [apply bn_list_find|]. intros [[b fr2]|]; apply safe_any_benign; unfold give_up; bn.
   Qed.
 
   Lemma safe_run_ops t f : forall os fr l, safe t (run_ops cap hs f t os fr) l QT.
@@ -326,8 +330,9 @@ Section Inv.
   Lemma Inv_init : Inv init (fun _ => mkL None []) [].
   Proof.
     constructor; cbn.
-    - intros b Hb. destruct (Nat.eqb_spec b 0) as [->|]; [|congruence]. split; [lia|reflexivity].
-    - intros b Hb Hn. destruct (Nat.eqb_spec b 0); congruence.
+    - intros b Hb. destruct (Nat.eq_dec b 0) as [E|E]; [subst b; cbn; split; [lia|reflexivity]|].
+      exfalso. apply Hb. destruct (Nat.eqb_spec b 0); [congruence|reflexivity].
+    - intros b Hb Hn. exfalso. apply Hb. destruct (Nat.eqb_spec b 0); [congruence|reflexivity].
     - discriminate.
     - intros t n b H. discriminate.
     - intros t b [].
